@@ -76,7 +76,9 @@ type shared18 struct {
 	// mdPathFill has a fill-opacity and no opacity; factors is a shared table of scale factors
 	mdPathFill *mdicons.Path
 	factors    []float32
-	circ       []mdicons.Circle
+	// grad is one gradient paint that all pipelines read (At and the accessors)
+	grad *render.Gradient
+	circ []mdicons.Circle
 	// opts is a shared, read-only option table with spare capacity; tasks pass prefix views of it
 	opts []decode.DecodeOption
 }
@@ -149,8 +151,12 @@ func task18(kind int, in int, sh *shared18, variant uint64) [32]byte {
 		g.SetPathData(sh.paths[int(variant)%len(sh.paths)], uint8(variant%7))
 		// caller-held slices shared by all pipelines: a transform list handed over
 		// with "..." and a stop list that is not in increasing offset order
+		g.SetTransform() // back to the identity (no arguments), then a transform again: nothing but this Generator changes
+		g.SetPathData(sh.paths[(in+1)%len(sh.paths)], 2)
 		g.SetTransform(sh.transforms...)
 		g.SetPathData(sh.paths[in%len(sh.paths)], 1)
+		g.SetTransform()
+		g.SetPathData(sh.paths[(in+2)%len(sh.paths)], 3)
 		m := generate.Concat(sh.transforms...)
 		i := int(variant) % len(sh.factors)
 		m = generate.Concat(m, generate.Scale(sh.factors[i:i+1]...)) // one factor, handed over as a slice of the shared table
@@ -180,6 +186,21 @@ func task18(kind int, in int, sh *shared18, variant uint64) [32]byte {
 				h.Write([]byte{r.R, r.G, r.B, r.A})
 			}
 		}
+		// a Gradient paint shared read-only by everybody: sampled, and its accessors
+		// called; what an accessor returns belongs to the caller
+		for i := 0; i < 24; i++ {
+			k := sh.grad.At(i*5-30, int(variant%7)*3-9)
+			r, g, b, a := k.RGBA()
+			h.Write([]byte{byte(r >> 8), byte(g >> 8), byte(b >> 8), byte(a >> 8)})
+		}
+		offs := sh.grad.StopOffsets()
+		cols := sh.grad.StopColors()
+		for i := range offs {
+			offs[i] += float64(variant) // the caller's own copy
+			cols[i].A ^= uint8(variant)
+		}
+		ta, tb, tc, td, te, tf := sh.grad.Transform()
+		h.Write([]byte(fmt.Sprint(offs, cols, ta, tb, tc, td, te, tf, sh.grad.GradientShape(), sh.grad.SpreadMethod())))
 		a, bb, cc, dd := ivg.DefaultViewBox.AspectMeet(100, 50, ivg.Mid, ivg.Max)
 		e, f, gg, hh := ivg.DefaultMetadata.ViewBox.AspectSlice(100, 50, ivg.Min, ivg.Mid)
 		h.Write([]byte(fmt.Sprint(a, bb, cc, dd, e, f, gg, hh, ivg.DefaultPalette[7], ivg.MagicBytes)))
@@ -219,6 +240,7 @@ func sharedHash18(sh *shared18) [32]byte {
 	for _, b := range sh.inputs {
 		h.Write(b)
 	}
+	h.Write([]byte(fmt.Sprintf("%+v", *sh.grad)))
 	h.Write([]byte(fmt.Sprint(*sh.pal, *sh.rawPal, *sh.rawReg, sh.stops, sh.stopsUnordered, sh.transforms, sh.factors[:cap(sh.factors)], sh.paths, sh.mdPath.D, sh.circ)))
 	for _, p := range []*mdicons.Path{sh.mdPath, sh.mdPathFill} {
 		h.Write([]byte(fmt.Sprint(p.D, p.Fill, p.FillOpacity == nil, p.Opacity == nil)))
@@ -305,6 +327,10 @@ func c18Round(c *run.Ctx, idx uint64) {
 	md, _ := gen.PathString(r, false)
 	op := float32(0.54)
 	sh.mdPath = &mdicons.Path{D: md, Opacity: &op}
+	sh.grad = &render.Gradient{}
+	sh.grad.Init(render.ShapeRadial, render.SpreadReflect, render.Aff3{0.05, 0.01, -0.3, -0.02, 0.04, 0.2}, []render.Stop{
+		{Offset: 0.1, RGBA64: color.RGBA64{0xffff, 0, 0, 0xffff}}, {Offset: 0.4, RGBA64: color.RGBA64{0, 0x8080, 0, 0x8080}},
+		{Offset: 0.7, RGBA64: color.RGBA64{0, 0, 0xffff, 0xffff}}, {Offset: 0.95, RGBA64: color.RGBA64{}}})
 	fop := float32(0.38)
 	sh.mdPathFill = &mdicons.Path{D: "M2 3h4v5H2z", FillOpacity: &fop}
 	sh.factors = append(make([]float32, 0, 6), 2, 0.5, 3, 1.5) // a table of scale factors with spare capacity
